@@ -23,4 +23,24 @@ for C in $CHECKS; do
   [ "$V" -gt 0 ] && CAUGHT="$CAUGHT $C"
 done
 echo "RESULT $P-$K tests=[$TESTS] demo_with=$DW demo_without=$DO caught_by=[$CAUGHT ]"
+/venv/bin/python - "$DST" "$P" "$K" "$TESTS" "$DW" "$DO" "$CAUGHT" "$CHECKS" <<'PYEOF'
+import json, os, sys
+dst, prop, k, tests, dw, do, caught, checks = sys.argv[1:9]
+notes = open(os.path.join(dst, 'notes.md')).read() if os.path.exists(os.path.join(dst, 'notes.md')) else ''
+meta = {
+    'breaks_property': prop,
+    'origin': 'written by an independent sub-agent that saw only the property text and a scratch worktree of the repository (nothing from /verif)',
+    'needs_to_manifest': notes.strip()[:1500],
+    'what_was_run': [
+        'patch -p1 < patch.diff on a scratch copy of /repo (working tree at evaluation time)',
+        'pytest -q --continue-on-collection-errors on the scratch copy -> ' + tests,
+        f'demo.py on the scratch copy (with the change) -> exit {dw}; on /repo (without) -> exit {do}',
+        'VERIF_REPO=<scratch> ./check <id> --tier quick for: ' + checks,
+    ],
+    'confirmed_breaks_and_passes_tests': tests.startswith('55 passed') and dw != '0' and do == '0',
+    'caught_by_checks': caught.split(),
+    'checks_run': checks.split(),
+}
+json.dump(meta, open(os.path.join(dst, 'meta.json'), 'w'), indent=1)
+PYEOF
 rm -rf "$D"
